@@ -7,6 +7,34 @@ TB = ("Coq 8.16.1 kernel; axioms as printed by Print Assumptions (allow-list in 
       "tied to /repo only by that correspondence (DESIGN.md section 8)")
 
 CHECKS = {
+ "C15": dict(
+   text="Machine-checked theorems about the list builders (all element sequences, any length): make_list_of_terms (the builder "
+        "behind append, include and exclude) yields a well-formed node chain whose elements are exactly the given terms - a "
+        "list-valued or empty-list element stays one element - with every recorded count equal to the number of nodes; "
+        "link_front (the parser's builder) prepends exactly one element; the documented constructor make_linked_list yields "
+        "the given elements, the last one as tail variable when vbar is set, and a trailing list spliced in as the rest. "
+        "Renamed clause lists keep their shape by C10's theorem. Tied to the code by differential execution on the raw node "
+        "structure; the specification's view `elems` is also evaluated on the implementation's own results (oracle).",
+   ref="7/C15",
+   technique="Coq proof (Properties/C15.v, Spec/SpecLists.v) + model-vs-implementation correspondence via extraction + specification oracle on the implementation's results"),
+ "C16": dict(
+   text="Machine-checked theorem (all argument tuples, all substitutions): whenever every input argument has a contribution "
+        "in the sense of the specification (Spec/SpecLists.v: the elements of the list it resolves to, continuing through tail "
+        "variables bound to lists, or the single non-list value it resolves to), append is exactly the unification of the "
+        "output argument with the list holding the concatenated contributions; the traversal lemma behind it is proved for "
+        "every well-formed list. 'At most once' is the solver's built-in node (C05). Tied to the code by differential "
+        "execution; the specification is evaluated on the implementation's own results as an oracle.", ref="7/C16",
+   technique="Coq proof (Properties/C16.v) + model-vs-implementation correspondence via extraction + specification oracle on the implementation's results"),
+ "C17": dict(
+   text="Machine-checked theorems (all arguments, all substitutions): count unifies its output with the number of elements "
+        "(through bound tails); include/exclude unify their output - under the ORIGINAL substitution, the pattern tests leave no "
+        "binding - with the list built exactly from List.filter of the elements by 'unifies with the pattern'; functor matches "
+        "`prefix*` by prefix (str_prefix p s = true <-> s = p ++ r), otherwise exactly, and unifies the arity argument with the "
+        "number of arguments; join is the first word followed by each later word preceded by one space unless it is , . ? !. "
+        "Tied to the code by differential execution; python twins of the specifications are evaluated on the implementation's "
+        "own results as oracles.", ref="7/C17",
+   technique="Coq proof (Properties/C17.v) + model-vs-implementation correspondence via extraction + specification oracles on the implementation's results"),
+
  "C08": dict(
    text="Machine-checked theorems over the model of unify (all terms, all substitutions, any number of steps): every "
         "successful unification keeps 'following bindings from any term ends' (the binding step is only taken after the "
